@@ -49,7 +49,7 @@ def handler_config(rng, max_ranks=6, max_extent=7, dmin=2, dmax=4, nlayouts=None
         tries = 0
         while len(layouts) < want and tries < 40:
             tries += 1
-            base = rng.choice(layouts)
+            base = layouts[-1] if rng.random() < 0.6 else rng.choice(layouts)
             nb = [l for l in neighbours(N, nprocs, base) if l not in layouts]
             if not nb:
                 continue
